@@ -30,6 +30,12 @@ chk("C07", "exploration",
     "Trusted: Go stdlib, the generator/reference reader in harness/deb822.go (cross-checked against each other every run), the simulated reader. Real code: control.ParagraphReader, Decoder, Unmarshal.",
     "DESIGN.md §5 C07")
 
+chk("C08", "exploration",
+    "deterministic simulation: seeded paragraph/document workloads driven through a simulated document store (writer -> faulty sink -> stored bytes -> reader) over several write/read cycles, checked against a paragraph-list model and a blank-line scanner; seeded search with tape minimisation and exact replay",
+    "Fault-free runs demand value equality (modulo one trailing newline / the leading marker), no blank or whitespace-only line inside a written paragraph, one separator line between encoder paragraphs and a byte fixpoint from the second written form on; fault runs demand that a failing sink is reported and that the accepted bytes are a prefix of the fault-free output. Sampling: evidence, not proof.",
+    "Trusted: Go stdlib, the value generator and scanner in harness/c08.go, simulated reader/writer. Real code: Paragraph.WriteTo, Encoder, Marshal, ParagraphReader.",
+    "DESIGN.md §5 C08")
+
 def main():
     props = [json.loads(l) for l in open(os.path.join(HERE, "properties.jsonl"))]
     ids = [p["id"] for p in props]
